@@ -635,8 +635,53 @@ func init() {
 					return o != nil && o.Pkg() != nil && o.Pkg().Path() == "unicode/utf8" && o.Name() == "RuneError"
 				}
 				ord := &ordinal{}
+				// a function every return of which reports an error (`return lex.errorf(…)`) is entered
+				// after the input was already refused: a RuneError comparison in it chooses the message,
+				// it does not decide whether text is accepted
+				onlyReports := func() bool {
+					n := 0
+					all := true
+					ast.Inspect(u.Decl.Body, func(m ast.Node) bool {
+						if _, isLit := m.(*ast.FuncLit); isLit {
+							return false
+						}
+						rs, ok := m.(*ast.ReturnStmt)
+						if !ok {
+							return true
+						}
+						n++
+						if len(rs.Results) != 1 {
+							all = false
+							return true
+						}
+						ce, ok := ast.Unparen(rs.Results[0]).(*ast.CallExpr)
+						if !ok {
+							all = false
+							return true
+						}
+						f := Callee(info, ce)
+						if f == nil || !strings.Contains(strings.ToLower(f.Name()), "error") {
+							all = false
+						}
+						return true
+					})
+					return n > 0 && all
+				}()
 				// top-level boolean contexts: if conditions and returned expressions
 				check := func(root ast.Expr, at ast.Node) {
+					if onlyReports {
+						mention := false
+						ast.Inspect(root, func(m ast.Node) bool {
+							if e, ok := m.(ast.Expr); ok && isRuneErr(e) {
+								mention = true
+							}
+							return true
+						})
+						if mention {
+							obs = append(obs, mkOb(c, rid, u, ord.next("RuneError comparison"), at, Proved, "every return of this function reports an error: the comparison selects the message, it does not decide acceptance", false))
+						}
+						return
+					}
 					atoms := impliedAtoms(root, true)
 					hasErr, hasWidth := false, false
 					for _, a := range atoms {
